@@ -281,8 +281,9 @@ def Sinks.count : Sinks → Option Nat
     left_unique, right_unique)`; `cs` is the chunk size of the streamed helpers (`1 << 20` in the code). -/
 def orderedMergeLeft (cs : Nat) (c : Cfg) (leftUnique rightUnique : Bool) (leftOn rightOn : List Int)
     (srcs : List Payload) : Except Err MergeOut :=
-  if c.sinks.count.any (· != srcs.length) then .error (.valueError "sources and sinks should be of the same length")
-  else if c.keysAreFields && srcs.isEmpty then .error (.oob "right_field_sources[0]")
+  -- the message of this `raise ValueError(msg.format(a, b))` has four placeholders: `str.format` raises IndexError
+  if c.sinks.count.any (· != srcs.length) then .error (.oob "msg.format")
+  else if srcs.isEmpty then .error (.oob "fields[0]")     -- `val.all_same_basic_type(…, right_field_sources)`
   else if !rightUnique then .error (.valueError "Right key must not have duplicates")
   else
     let st := streamable c
@@ -336,8 +337,10 @@ def innerMaps (leftUnique rightUnique : Bool) (leftOn rightOn : List Int) : Exce
     right_field_sinks, left_unique, right_unique)` -/
 def orderedMergeInner (leftUnique rightUnique : Bool) (leftOn rightOn : List Int)
     (lsrcs : List Payload) (lsinks : Sinks) (rsrcs : List Payload) (rsinks : Sinks) : Except Err InnerOut :=
-  if lsinks.count.any (· != lsrcs.length) then .error (.valueError "sources and sinks should be of the same length")
-  else if rsinks.count.any (· != rsrcs.length) then .error (.valueError "sources and sinks should be of the same length")
+  if lsinks.count.any (· != lsrcs.length) then .error (.oob "msg.format")
+  else if lsrcs.isEmpty then .error (.oob "fields[0]")
+  else if rsinks.count.any (· != rsrcs.length) then .error (.oob "msg.format")
+  else if rsrcs.isEmpty then .error (.oob "fields[0]")
   else
     match innerMaps leftUnique rightUnique leftOn rightOn with
     | .error e => .error e
